@@ -3,4 +3,5 @@ setup:
 	$(MAKE) -s -f engines/chanbfs/Makefile FLAVOUR=plain all
 	$(MAKE) -s -j16 -f engines/vsched/Makefile FLAVOUR=cov all
 	$(MAKE) -s -j16 -f engines/seqx/Makefile FLAVOUR=plain all
+	$(MAKE) -s -j16 -f engines/seqx/Makefile FLAVOUR=asan c17
 .PHONY: setup
